@@ -574,7 +574,7 @@ class Program:
                     ty = vi.ty if vi is not None else (f.args[v[1]]['ty'] if v[0] == 'a' else None)
                     if not isfp(ty):
                         continue
-                c.append((self.slot_desc(f, i.ops[1]), fs, ss))
+                c.append((self.slot_desc(f, i.ops[1]), fs, ss, i.id))
             elif i.op == 'call' and i.callee_full and i.asm is None:
                 tgt = self.functions.get(i.callee_full)
                 if tgt is None or tgt.decl:
@@ -584,11 +584,11 @@ class Program:
                         continue
                     fs, ss = self._fp_val(f, a)
                     if fs or ss:
-                        c.append(('a:%s:%d' % (tgt.name, k), fs, ss))
+                        c.append(('a:%s:%d' % (tgt.name, k), fs, ss, i.id))
         self._cons[f.name] = c
         return c
 
-    def solve_slots(self, fnames=None):
+    def solve_slots(self, fnames=None, reach=None):
         """slot descriptor -> set of function names that may be stored there, using only the
         stores / argument passing that occur in the given functions (default: all) plus
         constant initialisers.  Fixpoint over inclusion constraints."""
@@ -597,7 +597,10 @@ class Program:
         for f in self.defined():
             if fnames is not None and f.name not in fnames:
                 continue
-            for sd, fs, ss in self._constraints(f):
+            rs = reach.get(f.name) if reach is not None else None
+            for sd, fs, ss, iid in self._constraints(f):
+                if rs is not None and iid not in rs:
+                    continue
                 direct[sd] |= fs
                 incl[sd] |= ss
         for gname, g in self.globals.items():
